@@ -302,6 +302,9 @@ def run_unit(template, tier='quick', keep=True, extra_defs=None, repo=None, buil
     # unannotated loops in a P/L unit with no unwind flags -> cbmc would not terminate or the unit is mislabeled
     if info['kind'] in ('P', 'L') and any('--unwind' in x for x in cb_extra):
         guard_err = 'guard: unit labelled %s but uses --unwind' % info['kind']
+    if info['enforce'] and any(o.get('function') == info['entry'] and str(o.get('file', '')).startswith('src/xercesc')
+                               for o in obligations):
+        guard_err = 'guard: extracted code was inlined into the harness (a loop in the harness?) -- --enforce-contract bypassed'
     # every ensures clause of an enforced contract must show as a postcondition obligation
     if info['enforce']:
         n_post = sum(1 for o in obligations if re.search(r'[Cc]heck ensures clause|postcondition', o['description']))
